@@ -4,6 +4,13 @@ C06 — property theorems.  Every theorem is about the range `R` in an arbitrary
 dereferences anything outside `[first,last)`: the "touches nothing outside the range" clause)
 of exactly the value the declarative spec prescribes, with `P` and `S` unchanged.
 No theorem has a size bound; hypotheses are the standard's preconditions.
+
+Algorithms that write through an output iterator have two theorems: `X_eq` (the value stream: WHICH values are
+written, in which order) and `X_out` (section "output iterators" at the end): the destination model `Out.X` of
+Model/Out.lean, run on a destination `Dp ++ W ++ Ds` with the window `W` the caller provides, returns `.ok` of
+`(Dp ++ (result ++ W.drop |result|) ++ Ds, |Dp| + |result|)` — every value at its position, nothing outside the
+first `|result|` window positions written, and the RETURNED output iterator.  Hypothesis `|result| ≤ |W|` is the
+standard's "the destination range has room" precondition.
 -/
 import TetlProofs.C06.Fold
 import TetlProofs.C06.Reverse
@@ -25,6 +32,11 @@ import TetlProofs.C06.SetLoops
 import TetlProofs.C06.SetSpec
 import TetlProofs.C06.IsPerm
 import TetlProofs.C06.MergeSort
+import TetlProofs.C06.OutCopy
+import TetlProofs.C06.OutMerge
+import TetlProofs.C06.OutMisc
+import TetlProofs.C06.Needle
+import TetlProofs.C06.Regress
 namespace Tetl.C06.Props
 open Tetl Tetl.C06
 variable {α : Type}
@@ -559,6 +571,14 @@ theorem shiftRight_eq (dflt : α) (P R S : List α) (n : Int) :
         ∧ ((n ≤ 0 ∨ n ≥ (R.length : Int)) → Z ++ (Spec.shiftRight R n).1 = R) :=
   shiftRight_spec dflt P R S n
 
+/-- shift_right on a value type without default constructor (no clean-up of the vacated slots): same contract -/
+theorem shiftRightNoFill_eq (P R S : List α) (n : Int) :
+    ∃ Z, shiftRightNoFill (P ++ R ++ S) P.length (P.length + R.length) n
+          = .ok (P ++ (Z ++ (Spec.shiftRight R n).1) ++ S, P.length + (Spec.shiftRight R n).2)
+        ∧ Z.length = (Spec.shiftRight R n).2
+        ∧ ((n ≤ 0 ∨ n ≥ (R.length : Int)) → Z ++ (Spec.shiftRight R n).1 = R) :=
+  shiftRightNoFill_spec P R S n
+
 /-! ## unique_copy / unique / adjacent_find / is_sorted_until / is_sorted -/
 
 theorem uniqueCopy_eq (pred : α → α → Bool) (P R S : List α) :
@@ -824,5 +844,282 @@ theorem sorted_split (lt : α → α → Bool) (R' : List α) (hs : Sorted lt R'
   rw [← List.take_append_drop k R', List.pairwise_append] at hs
   exact hs
 example : Sorted (fun x y : Nat => decide (x < y)) [1, 2, 2] := by simp [Sorted]
+
+
+/-! ## search / find_end / find_first_of with the needle as a checked range `T` of `Q ++ T ++ U`
+    (no predicate is applied to, nothing is read from, anything outside the second range either) -/
+
+theorem searchB_eq (pred : α → α → Bool) (P R S Q T U : List α) :
+    searchB pred (P ++ R ++ S) P.length (P.length + R.length) (Q ++ T ++ U) Q.length (Q.length + T.length)
+      = .ok (P.length + Spec.search pred R T) := by
+  rw [searchB_eq_search]; exact search_eq pred P R S T
+
+theorem findEndB_eq (pred : α → α → Bool) (P R S Q T U : List α) :
+    findEndB pred (P ++ R ++ S) P.length (P.length + R.length) (Q ++ T ++ U) Q.length (Q.length + T.length)
+      = .ok (P.length + Spec.findEnd pred R T) := by
+  rw [findEndB_eq_findEnd]; exact findEnd_eq pred P R S T
+
+theorem findFirstOfB_eq (pred : α → α → Bool) (P R S Q T U : List α) :
+    findFirstOfB pred (P ++ R ++ S) P.length (P.length + R.length) (Q ++ T ++ U) Q.length (Q.length + T.length)
+      = .ok (P.length + Spec.findFirstOf pred R T) := by
+  rw [findFirstOfB_eq_findFirstOf]; exact findFirstOf_eq pred P R S T
+
+/-! ## min / max / clamp stated independently of the model text (`min2_eq` … are `rfl`): the result is one of the
+    arguments, nothing is smaller (larger), and on equivalent arguments it is the FIRST ([alg.min.max]) -/
+
+theorem min2_char (lt : α → α → Bool) (hlt : StrictWeak lt) (x y : α) :
+    (min2 lt x y = x ∨ min2 lt x y = y) ∧ lt x (min2 lt x y) = false ∧ lt y (min2 lt x y) = false
+      ∧ (lt y x = false → min2 lt x y = x) := by
+  unfold min2
+  cases h : lt y x
+  · simp [h, hlt.irrefl]
+  · have hasym : lt x y = false := by
+      cases h' : lt x y
+      · rfl
+      · have := hlt.trans x y x h' h
+        rw [hlt.irrefl] at this
+        cases this
+    simp [hasym, hlt.irrefl]
+example : StrictWeak (fun x y : Nat => decide (x < y)) := strictWeak_nat
+
+theorem max2_char (lt : α → α → Bool) (hlt : StrictWeak lt) (x y : α) :
+    (max2 lt x y = x ∨ max2 lt x y = y) ∧ lt (max2 lt x y) x = false ∧ lt (max2 lt x y) y = false
+      ∧ (lt x y = false → max2 lt x y = x) := by
+  unfold max2
+  cases h : lt x y
+  · simp [h, hlt.irrefl]
+  · have hasym : lt y x = false := by
+      cases h' : lt y x
+      · rfl
+      · have := hlt.trans x y x h h'
+        rw [hlt.irrefl] at this
+        cases this
+    simp [hasym, hlt.irrefl]
+example : StrictWeak (fun x y : Nat => decide (x < y)) := strictWeak_nat
+
+/-- clamp under its precondition `!(hi < lo)`: `lo` if `v < lo`, `hi` if `hi < v`, else `v` — and the result lies in `[lo,hi]` -/
+theorem clamp_char (lt : α → α → Bool) (hlt : StrictWeak lt) (v lo hi : α) (hpre : lt hi lo = false) :
+    (lt v lo = true → clamp lt v lo hi = lo) ∧ (lt hi v = true → clamp lt v lo hi = hi)
+      ∧ (lt v lo = false → lt hi v = false → clamp lt v lo hi = v)
+      ∧ lt (clamp lt v lo hi) lo = false ∧ lt hi (clamp lt v lo hi) = false := by
+  unfold clamp
+  cases h1 : lt v lo <;> cases h2 : lt hi v
+  · simp [h1, h2]
+  · simp [hpre, hlt.irrefl]
+  · simp [hpre, hlt.irrefl]
+  · -- v < lo and hi < v together contradict !(hi < lo) by transitivity
+    have := hlt.trans hi v lo h2 h1
+    rw [hpre] at this
+    cases this
+example : StrictWeak (fun x y : Nat => decide (x < y)) ∧ (decide ((3 : Nat) < 1)) = false := ⟨strictWeak_nat, by decide⟩
+
+/-! ## output iterators: returned iterator and write positions (see the header) -/
+
+theorem copyOut_out (P R S Dp W Ds : List α) (hroom : R.length ≤ W.length) :
+    Out.copy (P ++ R ++ S) P.length (P.length + R.length) (Dp ++ W ++ Ds) Dp.length (Dp.length + W.length)
+      = .ok (Dp ++ (R ++ W.drop R.length) ++ Ds, Dp.length + R.length) := by
+  rw [outCopy_bridge _ _ _ _ _ _ _ (by simpa [forEach] using forEach_eq P R S)]
+  exact writeAll_ctx Dp W Ds _ hroom
+example : [1, 2].length ≤ [0, 0, 0].length := by decide
+
+theorem copyIf_out (p : α → Bool) (P R S Dp W Ds : List α) (hroom : (R.filter p).length ≤ W.length) :
+    Out.copyIf p (P ++ R ++ S) P.length (P.length + R.length) (Dp ++ W ++ Ds) Dp.length (Dp.length + W.length)
+      = .ok (Dp ++ (R.filter p ++ W.drop (R.filter p).length) ++ Ds, Dp.length + (R.filter p).length) := by
+  rw [outCopyIf_bridge _ _ _ _ _ _ _ _ (copyIf_eq p P R S)]
+  exact writeAll_ctx Dp W Ds _ hroom
+example : ([1, 2, 3].filter (fun x => decide (x < 3))).length ≤ [0, 0].length := by decide
+
+theorem removeCopyIf_out (p : α → Bool) (P R S Dp W Ds : List α) (hroom : (Spec.remove p R).length ≤ W.length) :
+    Out.removeCopyIf p (P ++ R ++ S) P.length (P.length + R.length) (Dp ++ W ++ Ds) Dp.length (Dp.length + W.length)
+      = .ok (Dp ++ (Spec.remove p R ++ W.drop (Spec.remove p R).length) ++ Ds, Dp.length + (Spec.remove p R).length) := by
+  rw [outRemoveCopyIf_bridge _ _ _ _ _ _ _ _ (removeCopyIf_eq p P R S)]
+  exact writeAll_ctx Dp W Ds _ hroom
+example : (Spec.remove (fun x => decide (x < 2)) [1, 2, 3]).length ≤ [0, 0].length := by decide
+
+/-- the code before `fix: remove_copy_if …` (`removeCopyIfPre`) does NOT satisfy `removeCopyIf_out` -/
+theorem removeCopyIf_out_excludes_prefix_code :
+    ¬ ∀ (p : Nat → Bool) (P R S Dp W Ds : List Nat), (Spec.remove p R).length ≤ W.length →
+      removeCopyIfPre p (P ++ R ++ S) P.length (P.length + R.length) (Dp ++ W ++ Ds) Dp.length (Dp.length + W.length)
+        = .ok (Dp ++ (Spec.remove p R ++ W.drop (Spec.remove p R).length) ++ Ds, Dp.length + (Spec.remove p R).length) := by
+  intro h
+  have := h (fun x => x == 1) [] [1, 2] [] [] [0] [] (by decide)
+  rw [show ([] : List Nat) ++ [1, 2] ++ [] = [1, 2] from rfl, show ([] : List Nat) ++ [0] ++ [] = [0] from rfl] at this
+  have w := removeCopyIfPre_witness_exact
+  simp only [List.length_nil, List.length_cons, Nat.zero_add] at this
+  rw [w] at this
+  cases this
+
+theorem removeCopy_out (eq : α → α → Bool) (v : α) (P R S Dp W Ds : List α)
+    (hroom : (Spec.remove (fun x => eq x v) R).length ≤ W.length) :
+    Out.removeCopy eq v (P ++ R ++ S) P.length (P.length + R.length) (Dp ++ W ++ Ds) Dp.length (Dp.length + W.length)
+      = .ok (Dp ++ (Spec.remove (fun x => eq x v) R ++ W.drop (Spec.remove (fun x => eq x v) R).length) ++ Ds,
+             Dp.length + (Spec.remove (fun x => eq x v) R).length) := by
+  rw [outRemoveCopy_bridge _ _ _ _ _ _ _ _ _ (removeCopy_eq eq v P R S)]
+  exact writeAll_ctx Dp W Ds _ hroom
+example : (Spec.remove (fun x => x == 2) [1, 2, 3]).length ≤ [0, 0].length := by decide
+
+theorem copyN_out (P R S Dp W Ds : List α) (n : Int) (hn : n.toNat ≤ R.length) (hroom : (Spec.copyN R n).length ≤ W.length) :
+    Out.copyN (P ++ R ++ S) P.length (P.length + R.length) n (Dp ++ W ++ Ds) Dp.length (Dp.length + W.length)
+      = .ok (Dp ++ (Spec.copyN R n ++ W.drop (Spec.copyN R n).length) ++ Ds, Dp.length + (Spec.copyN R n).length) := by
+  rw [outCopyN_bridge _ _ _ _ _ _ _ _ (copyN_eq P R S n hn)]
+  exact writeAll_ctx Dp W Ds _ hroom
+example : (2 : Int).toNat ≤ [1, 2, 3].length ∧ (Spec.copyN [1, 2, 3] 2).length ≤ [0, 0].length := by decide
+
+/-- the code before `fix: copy_n …` (`copyNPre`) does NOT satisfy `copyN_out`: it returns one short -/
+theorem copyN_out_excludes_prefix_code :
+    ¬ ∀ (P R S Dp W Ds : List Nat) (n : Int), n.toNat ≤ R.length → (Spec.copyN R n).length ≤ W.length →
+      copyNPre (P ++ R ++ S) P.length (P.length + R.length) n (Dp ++ W ++ Ds) Dp.length (Dp.length + W.length)
+        = .ok (Dp ++ (Spec.copyN R n ++ W.drop (Spec.copyN R n).length) ++ Ds, Dp.length + (Spec.copyN R n).length) := by
+  intro h
+  have := h [] [5] [] [] [0] [] 1 (by decide) (by decide)
+  rw [show ([] : List Nat) ++ [5] ++ [] = [5] from rfl, show ([] : List Nat) ++ [0] ++ [] = [0] from rfl] at this
+  simp only [List.length_nil, List.length_cons, Nat.zero_add] at this
+  rw [copyNPre_witness] at this
+  revert this
+  decide
+
+theorem uniqueCopyFwd_out (pred : α → α → Bool) (P R S Dp W Ds : List α) (hroom : (Spec.unique pred R).length ≤ W.length) :
+    Out.uniqueCopyFwd pred (P ++ R ++ S) P.length (P.length + R.length) (Dp ++ W ++ Ds) Dp.length (Dp.length + W.length)
+      = .ok (Dp ++ (Spec.unique pred R ++ W.drop (Spec.unique pred R).length) ++ Ds, Dp.length + (Spec.unique pred R).length) := by
+  rw [outUniqueCopyFwd_bridge _ _ _ _ _ _ _ _ (uniqueCopy_eq pred P R S)]
+  exact writeAll_ctx Dp W Ds _ hroom
+example : (Spec.unique (fun x y => x == y) [1, 1, 2]).length ≤ [0, 0].length := by decide
+
+theorem uniqueCopyOut_out (pred : α → α → Bool) (P R S Dp W Ds : List α) (hroom : (Spec.unique pred R).length ≤ W.length) :
+    Out.uniqueCopyOut pred (P ++ R ++ S) P.length (P.length + R.length) (Dp ++ W ++ Ds) Dp.length (Dp.length + W.length)
+      = .ok (Dp ++ (Spec.unique pred R ++ W.drop (Spec.unique pred R).length) ++ Ds, Dp.length + (Spec.unique pred R).length) := by
+  rw [outUniqueCopyOut_bridge _ _ _ _ _ _ _ _ (uniqueCopy_eq pred P R S)]
+  exact writeAll_ctx Dp W Ds _ hroom
+example : (Spec.unique (fun x y => x == y) [1, 1, 2]).length ≤ [0, 0].length := by decide
+
+theorem reverseCopy_out (P R S Dp W Ds : List α) (hroom : R.length ≤ W.length) :
+    Out.reverseCopy (P ++ R ++ S) P.length (P.length + R.length) (Dp ++ W ++ Ds) Dp.length (Dp.length + W.length)
+      = .ok (Dp ++ (R.reverse ++ W.drop R.length) ++ Ds, Dp.length + R.length) := by
+  rw [outReverseCopy_bridge _ _ _ _ _ _ _ (reverseCopy_eq P R S)]
+  have := writeAll_ctx Dp W Ds R.reverse (by simpa using hroom)
+  simpa using this
+example : [1, 2].length ≤ [0, 0, 0].length := by decide
+
+theorem rotateCopy_out (P R S Dp W Ds : List α) (k : Nat) (hk : k ≤ R.length) (hroom : R.length ≤ W.length) :
+    Out.rotateCopy (P ++ R ++ S) P.length (P.length + k) (P.length + R.length) (Dp ++ W ++ Ds) Dp.length (Dp.length + W.length)
+      = .ok (Dp ++ ((Spec.rotate R k).1 ++ W.drop R.length) ++ Ds, Dp.length + R.length) := by
+  rw [outRotateCopy_bridge _ _ _ _ _ _ _ _ (rotateCopy_eq P R S k hk)]
+  have hlen : (Spec.rotate R k).1.length = R.length := by simp [Spec.rotate]; omega
+  have := writeAll_ctx Dp W Ds (Spec.rotate R k).1 (by omega)
+  rw [hlen] at this
+  exact this
+example : (1 : Nat) ≤ [1, 2].length ∧ [1, 2].length ≤ [0, 0, 0].length := by decide
+
+theorem transform1_out (op : α → α) (P R S Dp W Ds : List α) (hroom : R.length ≤ W.length) :
+    Out.transform1 op (P ++ R ++ S) P.length (P.length + R.length) (Dp ++ W ++ Ds) Dp.length (Dp.length + W.length)
+      = .ok (Dp ++ (R.map op ++ W.drop R.length) ++ Ds, Dp.length + R.length) := by
+  rw [outTransform1_bridge _ _ _ _ _ _ _ _ (transform1_eq op P R S)]
+  have := writeAll_ctx Dp W Ds (R.map op) (by simpa using hroom)
+  simpa using this
+example : [1, 2].length ≤ [0, 0, 0].length := by decide
+
+theorem transform2_out (op : α → α → α) (P R S Q T U Dp W Ds : List α) (h : R.length ≤ T.length) (hroom : R.length ≤ W.length) :
+    Out.transform2 op (P ++ R ++ S) P.length (P.length + R.length) (Q ++ T ++ U) Q.length (Q.length + T.length)
+        (Dp ++ W ++ Ds) Dp.length (Dp.length + W.length)
+      = .ok (Dp ++ ((R.zip T).map (fun xy => op xy.1 xy.2) ++ W.drop R.length) ++ Ds, Dp.length + R.length) := by
+  rw [outTransform2_bridge _ _ _ _ _ _ _ _ _ _ _ (transform2_eq op P R S Q T U h)]
+  have hlen : ((R.zip T).map (fun xy => op xy.1 xy.2)).length = R.length := by simp; omega
+  have := writeAll_ctx Dp W Ds ((R.zip T).map (fun xy => op xy.1 xy.2)) (by omega)
+  rw [hlen] at this
+  exact this
+example : [1, 2].length ≤ [1, 3, 4].length ∧ [1, 2].length ≤ [0, 0].length := by decide
+
+theorem partitionCopy_out (p : α → Bool) (P R S D1p W1 D1s D2p W2 D2s : List α)
+    (h1 : (R.filter p).length ≤ W1.length) (h2 : (R.filter (fun x => !p x)).length ≤ W2.length) :
+    Out.partitionCopy p (P ++ R ++ S) P.length (P.length + R.length)
+        (D1p ++ W1 ++ D1s) D1p.length (D1p.length + W1.length) (D2p ++ W2 ++ D2s) D2p.length (D2p.length + W2.length)
+      = .ok ((D1p ++ (R.filter p ++ W1.drop (R.filter p).length) ++ D1s, D1p.length + (R.filter p).length),
+             (D2p ++ (R.filter (fun x => !p x) ++ W2.drop (R.filter (fun x => !p x)).length) ++ D2s,
+              D2p.length + (R.filter (fun x => !p x)).length)) :=
+  outPartitionCopy_ctx p P R S D1p W1 D1s D2p W2 D2s h1 h2
+example : ([1, 2, 3].filter (fun x => decide (x < 3))).length ≤ [0, 0].length ∧
+    ([1, 2, 3].filter (fun x => !decide (x < 3))).length ≤ [0].length := by decide
+
+theorem merge_out (lt : α → α → Bool) (P R S Q T U Dp W Ds : List α) (hroom : (Spec.merge lt R T).length ≤ W.length) :
+    Out.merge lt (P ++ R ++ S) P.length (P.length + R.length) (Q ++ T ++ U) Q.length (Q.length + T.length)
+        (Dp ++ W ++ Ds) Dp.length (Dp.length + W.length)
+      = .ok (Dp ++ (Spec.merge lt R T ++ W.drop (Spec.merge lt R T).length) ++ Ds, Dp.length + (Spec.merge lt R T).length) := by
+  rw [outMerge_bridge _ _ _ _ _ _ _ _ _ _ _ (merge_eq lt P R S Q T U)]
+  exact writeAll_ctx Dp W Ds _ hroom
+example : (Spec.merge (fun x y : Nat => decide (x < y)) [1, 3] [2]).length ≤ [0, 0, 0].length := by simp [Spec.merge]
+
+theorem setDifference_out (lt : α → α → Bool) (hlt : StrictWeak lt) (P R S Q T U Dp W Ds : List α)
+    (hR : Sorted lt R) (hT : Sorted lt T) (hroom : (Spec.setDifference lt R T).length ≤ W.length) :
+    Out.setDifference lt (P ++ R ++ S) P.length (P.length + R.length) (Q ++ T ++ U) Q.length (Q.length + T.length)
+        (Dp ++ W ++ Ds) Dp.length (Dp.length + W.length)
+      = .ok (Dp ++ (Spec.setDifference lt R T ++ W.drop (Spec.setDifference lt R T).length) ++ Ds,
+             Dp.length + (Spec.setDifference lt R T).length) := by
+  rw [outSetDifference_bridge _ _ _ _ _ _ _ _ _ _ _ (setDifference_eq lt hlt P R S Q T U hR hT)]
+  exact writeAll_ctx Dp W Ds _ hroom
+example : StrictWeak (fun x y : Nat => decide (x < y)) ∧ Sorted (fun x y : Nat => decide (x < y)) [1, 2, 2] ∧
+    Sorted (fun x y : Nat => decide (x < y)) [2, 3] ∧
+    (Spec.setDifference (fun x y : Nat => decide (x < y)) [1, 2, 2] [2, 3]).length ≤ [0, 0].length :=
+  ⟨strictWeak_nat, by simp [Sorted], by simp [Sorted], by decide⟩
+
+theorem setIntersection_out (lt : α → α → Bool) (hlt : StrictWeak lt) (P R S Q T U Dp W Ds : List α)
+    (hR : Sorted lt R) (hT : Sorted lt T) (hroom : (Spec.setIntersection lt R T).length ≤ W.length) :
+    Out.setIntersection lt (P ++ R ++ S) P.length (P.length + R.length) (Q ++ T ++ U) Q.length (Q.length + T.length)
+        (Dp ++ W ++ Ds) Dp.length (Dp.length + W.length)
+      = .ok (Dp ++ (Spec.setIntersection lt R T ++ W.drop (Spec.setIntersection lt R T).length) ++ Ds,
+             Dp.length + (Spec.setIntersection lt R T).length) := by
+  rw [outSetIntersection_bridge _ _ _ _ _ _ _ _ _ _ _ (setIntersection_eq lt hlt P R S Q T U hR hT)]
+  exact writeAll_ctx Dp W Ds _ hroom
+example : StrictWeak (fun x y : Nat => decide (x < y)) ∧ Sorted (fun x y : Nat => decide (x < y)) [1, 2, 2] ∧
+    Sorted (fun x y : Nat => decide (x < y)) [2, 3] ∧
+    (Spec.setIntersection (fun x y : Nat => decide (x < y)) [1, 2, 2] [2, 3]).length ≤ [0].length :=
+  ⟨strictWeak_nat, by simp [Sorted], by simp [Sorted], by decide⟩
+
+theorem setSymmetricDifference_out (lt : α → α → Bool) (hlt : StrictWeak lt) (P R S Q T U Dp W Ds : List α)
+    (hR : Sorted lt R) (hT : Sorted lt T) (hroom : (Spec.setSymmetricDifference lt R T).length ≤ W.length) :
+    Out.setSymmetricDifference lt (P ++ R ++ S) P.length (P.length + R.length) (Q ++ T ++ U) Q.length (Q.length + T.length)
+        (Dp ++ W ++ Ds) Dp.length (Dp.length + W.length)
+      = .ok (Dp ++ (Spec.setSymmetricDifference lt R T ++ W.drop (Spec.setSymmetricDifference lt R T).length) ++ Ds,
+             Dp.length + (Spec.setSymmetricDifference lt R T).length) := by
+  rw [outSetSymmetricDifference_bridge _ _ _ _ _ _ _ _ _ _ _ (setSymmetricDifference_eq lt hlt P R S Q T U hR hT)]
+  exact writeAll_ctx Dp W Ds _ hroom
+example : StrictWeak (fun x y : Nat => decide (x < y)) ∧ Sorted (fun x y : Nat => decide (x < y)) [1, 2, 2] ∧
+    Sorted (fun x y : Nat => decide (x < y)) [2, 3] ∧
+    (Spec.setSymmetricDifference (fun x y : Nat => decide (x < y)) [1, 2, 2] [2, 3]).length ≤ [0, 0, 0].length :=
+  ⟨strictWeak_nat, by simp [Sorted], by simp [Sorted], by simp [Spec.setSymmetricDifference, Spec.merge, Spec.setDifference, Spec.selectByRank, Spec.equiv, List.range,
+    List.range.loop]⟩
+
+theorem setUnion_out (lt : α → α → Bool) (hlt : StrictWeak lt) (P R S Q T U Dp W Ds : List α)
+    (hR : Sorted lt R) (hT : Sorted lt T) (hroom : (Spec.setUnion lt R T).length ≤ W.length) :
+    Out.setUnion lt (P ++ R ++ S) P.length (P.length + R.length) (Q ++ T ++ U) Q.length (Q.length + T.length)
+        (Dp ++ W ++ Ds) Dp.length (Dp.length + W.length)
+      = .ok (Dp ++ (Spec.setUnion lt R T ++ W.drop (Spec.setUnion lt R T).length) ++ Ds,
+             Dp.length + (Spec.setUnion lt R T).length) := by
+  rw [outSetUnion_bridge _ _ _ _ _ _ _ _ _ _ _ (setUnion_eq lt hlt P R S Q T U hR hT)]
+  exact writeAll_ctx Dp W Ds _ hroom
+example : StrictWeak (fun x y : Nat => decide (x < y)) ∧ Sorted (fun x y : Nat => decide (x < y)) [1, 2, 2] ∧
+    Sorted (fun x y : Nat => decide (x < y)) [2, 3] ∧
+    (Spec.setUnion (fun x y : Nat => decide (x < y)) [1, 2, 2] [2, 3]).length ≤ [0, 0, 0, 0].length :=
+  ⟨strictWeak_nat, by simp [Sorted], by simp [Sorted], by simp [Spec.setUnion, Spec.merge, Spec.setDifference, Spec.selectByRank, Spec.equiv, List.range, List.range.loop]⟩
+
+theorem partialSum_out (op : α → α → α) (P R S Dp W Ds : List α) (hroom : (Spec.partialSum op R).length ≤ W.length) :
+    Out.partialSum op (P ++ R ++ S) P.length (P.length + R.length) (Dp ++ W ++ Ds) Dp.length (Dp.length + W.length)
+      = .ok (Dp ++ (Spec.partialSum op R ++ W.drop (Spec.partialSum op R).length) ++ Ds, Dp.length + (Spec.partialSum op R).length) := by
+  rw [outPartialSum_bridge _ _ _ _ _ _ _ _ (partialSum_eq op P R S)]
+  exact writeAll_ctx Dp W Ds _ hroom
+example : (Spec.partialSum (fun x y : Nat => x + y) [1, 2, 3]).length ≤ [0, 0, 0].length := by decide
+
+theorem adjacentDifference_out (op : α → α → α) (P R S Dp W Ds : List α)
+    (hroom : (Spec.adjacentDifference op R).length ≤ W.length) :
+    Out.adjacentDifference op (P ++ R ++ S) P.length (P.length + R.length) (Dp ++ W ++ Ds) Dp.length (Dp.length + W.length)
+      = .ok (Dp ++ (Spec.adjacentDifference op R ++ W.drop (Spec.adjacentDifference op R).length) ++ Ds,
+             Dp.length + (Spec.adjacentDifference op R).length) := by
+  rw [outAdjacentDifference_bridge _ _ _ _ _ _ _ _ (adjacentDifference_eq op P R S)]
+  exact writeAll_ctx Dp W Ds _ hroom
+example : (Spec.adjacentDifference (fun x y : Nat => x - y) [1, 2, 3]).length ≤ [0, 0, 0].length := by decide
+
+/-! ## exchange_sort: the code before `fix: exchange_sort returns early …` decrements `last = first` on EVERY empty range
+    (`exchangeSort_eq` above is about the repaired code, whose `prev(last)` is checked and never leaves the range) -/
+theorem exchangeSort_unguarded_empty_oob (lt : α → α → Bool) (a : List α) (f : Nat) :
+    exchangeSortUnguarded lt a f f = .error .oob := exchangeSortUnguarded_empty lt a f
 
 end Tetl.C06.Props
